@@ -95,17 +95,6 @@ class recording:
         self.sim.random = self.old
 
 
-def gen_tables(rng, gc):
-    """durations and non-decreasing non-negative delay lists per (node, infection ordinal); dyadic, no zero (no ties at tmin)"""
-    durs = {}; dels = {}
-    q = lambda lo, hi: F(rng.randint(int(lo * 64) + 1, int(hi * 64)), 64)
-    for u in gc.order:
-        durs[u] = [q(F(1, 8), 2) for _ in range(rng.randint(1, 3))]
-        for v in gc.G.neighbors(u):
-            dels[(u, v)] = [sorted(q(F(1, 16), F(5, 2)) for _ in range(rng.choice([0, 1, 1, 2, 3]))) for _ in range(rng.randint(1, 3))]
-    return durs, dels
-
-
 def make_rules(durs, dels, log, idmap):
     """deterministic closures over the tables; the infection ordinal of a node is the number of earlier calls of the
     duration function for it.  Every call is logged with its arguments (node ids, ordinal)."""
@@ -133,7 +122,8 @@ def gen_case(rng, name, nmax=8, nmin=1):
     gc = R.gen_graph(rng, nmax=nmax, nmin=nmin, kind=kind, ewl='tw' if w else None, nwl='rw' if w else None, zero_w=False)
     case = {'sim': name, 'gc': gc, 'kind': kind}
     if name.startswith('fast_nonMarkov'):
-        case['durs'], case['dels'] = gen_tables(rng, gc)
+        from . import esis_lib as EL
+        case['durs'], case['dels'] = EL.gen_tables(rng, gc)
     return case
 
 
@@ -364,7 +354,31 @@ def c18_cases(EoN, sim, rng, n, stats):
                 bad.append(('%s/full-data-flag/arrays' % name, '%s: arrays differ with and without return_full_data for identical seeds: %r vs %r' % (name, str(R.canon_arrays(p))[:200], str(cf)[:200]), dict(rp, clause='flag')))
             # the user's rules are called once per entry of transmissions(), for its target, in that order (extracted rule_calls)
             if name.startswith('fast_nonMarkov'):
-                _, trans = R.canon_full(f, gc, CODE)
+                hist, trans = R.canon_full(f, gc, CODE)
+                i0 = base.get('initial_infecteds')
+                if i0 and len(i0) >= 2 and not isinstance(trans, str):
+                    # Props/C18s.v, C18s_fast_nonMarkov_SIS_initial_order_irrelevant_without_ties: judged only when the plain agenda
+                    # semantics (Python oracle esis_lib.ref_sis, exact arithmetic) reports no tie for this input
+                    from . import esis_lib as EL
+                    ref = EL.ref_sis({'gc': gc, 'durs': case['durs'], 'dels': case['dels'], 'tmin': F(tmin), 'tmax': F(tmax)}, [gc.idmap[u] for u in i0])
+                    if not ref['ties'] and not ref['unfinished']:
+                        perm = list(reversed(i0)) if rng.random() < 0.5 else rng.sample(i0, len(i0))
+                        f2, _, _ = traced(EoN, sim, seed, case, dict(base, initial_infecteds=perm, return_full_data=True))
+                        stats['i0_order'] = stats.get('i0_order', 0) + 1
+                        if isinstance(f2, str):
+                            bad.append(('%s/initial_infecteds-order' % name, '%s: with initial_infecteds permuted the run raised %s' % (name, f2), dict(rp, clause='i0-order', perm=[repr(u) for u in perm])))
+                        else:
+                            hist2, trans2 = R.canon_full(f2, gc, CODE)
+                            rows2 = R.canon_arrays([f2.t(), f2.S(), f2.I()])
+                            srcd = lambda tr: [x for x in tr if x[1] is not None]
+                            what = None
+                            if rows2 != cf: what = 'arrays differ: %r vs %r' % (str(cf)[:150], str(rows2)[:150])
+                            elif hist2 != hist: what = 'node histories differ'
+                            elif isinstance(trans2, str) or srcd(trans2) != srcd(trans) or sorted(trans2, key=repr) != sorted(trans, key=repr):
+                                what = 'transmissions differ beyond the order of the leading source-less entries: %r vs %r' % (str(trans)[:150], str(trans2)[:150])
+                            if what:
+                                bad.append(('%s/initial_infecteds-order' % name, '%s on a tie-free input (rule tables): permuting initial_infecteds changes the output: %s' % (name, what),
+                                            dict(rp, clause='i0-order', perm=[repr(u) for u in perm])))
                 if not isinstance(trans, str):
                     call_lines.append('CALLS ' + trans_tokens(trans))
                     call_metas.append((rp, name, [(c[1], c[2]) for c in rlf if c[0] == 'rec'], rlf, gc))
